@@ -21,6 +21,7 @@ Evaluation order is Rust's (operands left to right; right-hand side of an assign
 """
 import json
 import os
+import re
 
 from . import common as c
 
@@ -152,6 +153,20 @@ PROFILES = {
                 "extern_enum_fields": {"ReturnType": {"Default": [], "Type": ["_", "_"]}, "Type": {"Path": ["_"], "Other": []},
                                        "PathArguments": {"None": [], "AngleBracketed": ["_"], "Parenthesized": []},
                                        "GenericArgument": {"Type": ["_"], "Other": []}}},
+    # where a reply handler's `#[sv::data]` and `#[sv::payload(raw)]` parameters may stand (C18, C09): `as_data_field` and
+    # `assert_no_redundant_params` of reply.rs; the accessors of MsgVariant / MsgField / MsgAttr and the attribute parser are parameters
+    "replyparams": {"src": ("sylvia-derive", "src", "contract", "communication", "reply.rs"), "out": "ReplyParamFns.lean", "ns": "Extracted.ReplyParamFns",
+                    "imports": ["Sylvia.Model.RustSem", "Sylvia.Model.RustExtern", "Sylvia.Extracted.ReplyOnFns"], "opens": "open RustSem Extracted.ReplyOnFns\nopen RustExtern (ParsedAttrs)",
+                    "vars": "variable {MsgVariant MsgField MsgAttr Attr P D : Type}", "str": "String",
+                    "only": ["assert_no_redundant_params"], "only_enums": [], "only_structs": [], "trait_only": ["MsgVariant.as_data_field"], "diags": True,
+                    "type_vars": ["MsgVariant", "MsgField"],
+                    "extern_enum_fields": {"ReplyOn": {"Success": [], "Error": [], "Always": []}},
+                    "leading_binders": "(variantFields : MsgVariant → List MsgField) (variantMsgAttr : MsgVariant → MsgAttr) (attrReplyOn : MsgAttr → ReplyOn) "
+                                       "(fieldAttrs : MsgField → List Attr) (parsedAttrs : List Attr → ParsedAttrs P D)",
+                    "leading_args": "variantFields variantMsgAttr attrReplyOn fieldAttrs parsedAttrs",
+                    "extern_methods": {"fields": "variantFields", "msg_attr": "variantMsgAttr", "reply_on": "attrReplyOn", "attrs": "fieldAttrs"},
+                    # the two constants of reply.rs (both 1; `const NUMBER_OF_ALLOWED_*: usize = 1`)
+                    "extern_calls": {"ParsedSylviaAttributes::new": "parsedAttrs", "NUMBER_OF_ALLOWED_RAW_PAYLOAD_FIELDS": "1", "NUMBER_OF_ALLOWED_DATA_FIELDS": "1"}},
     # the bridge to chain-custom types (C11): `IntoMsg::into_msg` and `IntoResponse::into_response`, trait methods on cosmwasm_std's
     # SubMsg / Response (declared in Sylvia/Model/RustExtern.lean); arms compiled under `#[cfg(feature = "..")]` become
     # `if feat ".." then <arm> else <the wildcard arm>`, so the regenerated function is the code under every feature set at once
@@ -380,6 +395,10 @@ class FnTr:
             return k("(fmt %s)" % lean_str(e[1]))
         if t == "quote":
             return k(lean_str(e[1]))
+        if t == "emit_error":
+            if not self.mod.profile.get("diags"):
+                raise Unsupported("emit_error! outside a profile that returns diagnostics")
+            return ["let diags := diags ++ [%s]" % lean_str(e[1])] + k("()")
         if t == "try":
             if self.depth:
                 raise Unsupported("`?` inside a loop")
@@ -533,6 +552,12 @@ class FnTr:
                 return self.ex(e[1], kuo)
             if name in ("as_ref", "copied", "cloned") and not e[3]:
                 return self.ex(e[1], k)
+            if name == "find" and len(e[3]) == 1 and e[3][0][0] == "closure" and len(e[3][0][1]) == 1 and e[1][0] == "mcall" and e[1][2] == "enumerate":
+                cl = e[3][0]
+                cp = cl[1][0]
+                if not (cp[0] == "ptuple" and len(cp[1]) == 2 and cp[1][0][0] == "wild" and cp[1][1][0] == "pid"):
+                    raise Unsupported("enumerate().find with a closure that looks at the index")
+                return self.ex(e[1][1], lambda r: k("(enumFind (fun %s => %s) %s)" % (lid(cp[1][1][1]), self.pure(cl[2]), r)))
             if name == "find" and len(e[3]) == 1 and e[3][0][0] == "closure" and len(e[3][0][1]) == 1:
                 cl = e[3][0]
                 return self.ex(e[1], lambda r: k("(List.find? (fun %s => %s) %s)" % (self.pat(cl[1][0]), self.pure(cl[2]), r)))
@@ -650,8 +675,13 @@ class FnTr:
                     return karm(arms[-1][2])
                 cov = {a_[0][1][-1] for a_ in arms[start:-1] if a_[0][0] in ("pts", "pstruct", "ppath")}
                 lines = ["match %s with" % s]
+                shapes = set()
                 for i in range(start, len(arms) - 1):
                     pat, guard, body, _attrs = arms[i]
+                    shape = re.sub(r"\b[a-z_][A-Za-z0-9_]*\b", "_", self.pat(pat))
+                    if shape in shapes:
+                        continue        # an earlier arm of the same shape falls through to this one by itself (see the `else` below)
+                    shapes.add(shape)
                     lines.append("| %s =>" % self.pat(pat))
                     if guard is None:
                         lines += ind(karm(body))
@@ -889,6 +919,10 @@ class FnTr:
         return self.stmt(e, ctx, rest)
 
     def ret_lines(self, v, ctx):
+        if self.mod.profile.get("diags"):
+            if ctx is not None:
+                raise Unsupported("return inside a loop of a function that returns diagnostics")
+            return [".ok (%s, diags)" % v]
         return [".ok (.ret %s)" % v] if ctx is not None else [".ok %s" % v]
 
     # ------------------------------------------------------------------ loops
